@@ -50,23 +50,18 @@ func goEscapeAll(v any) any {
 	return v
 }
 
-// rawFloatTables renders the reference float reading on every string leaf as it is (nothing substituted).
-func rawFloatTables(v any, f64, f32 map[string]string) {
+// rawLeafTables renders the opaque float part on every string leaf as it is (nothing substituted).
+func rawLeafTables(v any, t *rawTables) {
 	switch x := v.(type) {
 	case string:
-		if f, ok := refFloat(x, 64); ok {
-			f64[x] = fmt64(f)
-		}
-		if f, ok := refFloat(x, 32); ok {
-			f32[x] = fmt32(float32(f))
-		}
+		t.add(x)
 	case map[string]any:
 		for _, e := range x {
-			rawFloatTables(e, f64, f32)
+			rawLeafTables(e, t)
 		}
 	case []any:
 		for _, e := range x {
-			rawFloatTables(e, f64, f32)
+			rawLeafTables(e, t)
 		}
 	}
 }
@@ -98,9 +93,9 @@ func realCastDoc(raw json.RawMessage) any {
 	}
 	lookup := func(k string) (string, bool) { v, ok := a.Env[k]; return v, ok }
 	res, err := interpolation.Interpolate(doc, interpolation.Options{LookupValue: lookup, TypeCastMapping: loader.VerifCastTable()})
-	f64, f32 := map[string]string{}, map[string]string{}
-	rawFloatTables(lit, f64, f32)
-	out["f64"], out["f32"] = f64, f32
+	rt := newRawTables()
+	rawLeafTables(lit, rt)
+	rt.into(out)
 	if err != nil {
 		for k, v := range classifyInterpErr(err) {
 			out[k] = v
@@ -313,8 +308,8 @@ func init() {
 			var r map[string]json.RawMessage
 			json.Unmarshal(real, &r)
 			out := map[string]any{"tree": a["lit"]}
-			if r != nil {
-				out["f64"], out["f32"] = r["f64"], r["f32"]
+			for _, k := range rawTableKeys {
+				out[k] = r[k]
 			}
 			return out
 		},
